@@ -244,7 +244,8 @@ fn cmp(op: BinOp, a: &V, b: &V) -> Result<V, E> {
             let dbl = rank(a)? == 2 || rank(b)? == 2;
             let eps = if dbl { f64::EPSILON } else { f32::EPSILON as f64 };
             let d = (x - y).abs();
-            if d != 0.0 && d <= eps * 4.0 {
+            // (only = and <> : the ordering operators are exact)
+            if d != 0.0 && d <= eps * 4.0 && matches!(op, BinOp::Eq | BinOp::Ne) {
                 return Err(UNDEFINED_NEAR_EQUAL);
             }
             x.partial_cmp(&y).unwrap()
